@@ -596,3 +596,21 @@ func FeeRate(view *simnode.Node) *big.Int {
 	}
 	return cur
 }
+
+// FlipTx builds a SubmitFlipTx of id on view's state, or nil when the identity may not submit one now.
+func (s *Scn) FlipTx(view *simnode.Node, id *Ident, k int) *types.Transaction {
+	var tx *types.Transaction
+	view.Do(func() {
+		st := view.App.State
+		ident := st.GetIdentity(id.Addr)
+		if st.ValidationPeriod() != 0 || int(ident.GetMaximumAvailableFlips()) <= len(ident.Flips) {
+			return
+		}
+		nonce, ep := s.NextNonce(view, id)
+		t := &types.Transaction{AccountNonce: nonce, Epoch: ep, Type: types.SubmitFlipTx,
+			Payload: attachments.CreateFlipSubmitAttachment(someCid(byte(40+(id.Idx*7+k)%200)), uint8(k%4))}
+		t.MaxFee = new(big.Int).Mul(fee.CalculateFee(view.App.ValidatorsCache.NetworkSize(), FeeRate(view), t), big.NewInt(3))
+		tx = s.sign(t, id)
+	})
+	return tx
+}
